@@ -402,6 +402,14 @@ def _store_shape(P, R, rec):
         R.undecide("d", "undo-entry-fields", "UndoEntry does not have one Option<Value> and one other Option field (%s)" % [f["name"] + ":" + f["ty"] for f in uef], rb)
         return
     role = {"data": val_f[0], "fact_types": typ_f[0]}
+    if not [c for c in rb.calls() if c.name.endswith(("HashMap::insert", "HashMap::remove")) and c.bb in rb.normal_blocks()]:
+        # the replay of one entry may live in a private method of UndoEntry whose name collides with another rule's anchor
+        # (`UndoEntry::restore`): ask for it to be spliced in
+        from sa import inline as _inl
+        helpers = [c.resolved for c in rb.calls() if c.bb in rb.normal_blocks() and c.resolved in P.fns and P.fns[c.resolved].impl_self == UE and str(P.fns[c.resolved].vis).startswith("in:")]
+        if helpers:
+            _inl.FORCE_INLINE.update(helpers)
+            rb = P.reinline(rb.name)
     frame_pops = [c for c in rb.calls() if c.name == "std::vec::Vec::pop" and c.bb in rb.normal_blocks() and "undo_frames" in fmt_sym(rb.sym_operand(c.args[0]), maxdepth=8) and "Vec::pop" not in fmt_sym(rb.sym_operand(c.args[0]), maxdepth=8)]
     names = [c.name for c in rb.calls() if c.bb in rb.normal_blocks()]
     ins = [c for c in rb.calls() if c.name.endswith("HashMap::insert") and c.bb in rb.normal_blocks()]
